@@ -433,8 +433,13 @@ void EntityManager::applyCommandPack(TemporalStorage& storage, size_t begin, siz
         if (dest == nullptr) {
             continue;
         }
-        const auto& component_functions = ComponentFactory::instance().componentInfo(command.component_id).functions;
-        component_functions.move_constructor(dest, command.ptr);
+        const auto& component_info = ComponentFactory::instance().componentInfo(command.component_id);
+        const auto& component_functions = component_info.functions;
+        if (component_functions.move_constructor) {
+            component_functions.move_constructor(dest, command.ptr);
+        } else { // run-time described component without a move constructor: plain data, like ExternalMoveInfo::move
+            memcpy(dest, command.ptr, component_info.size);
+        }
         if (component_functions.after_assign) {
             component_functions.after_assign(dest, command.entity, world_);
         }
